@@ -7,5 +7,6 @@ CONSTANTS
   MaxSubs = 7
   MaxOps = 12
   UsePlain = TRUE
+  UseBurst = TRUE
   UseBad = TRUE
 CHECK_DEADLOCK FALSE
